@@ -585,11 +585,9 @@ func BufferWithCount[T any](size int) func(Observable[T]) Observable[[]T] {
 				),
 			)
 
-			return func() {
-				sub.Unsubscribe()
-
-				buffer = []T{}
-			}
+			// The buffer is owned by the upstream callbacks: it must not be touched by the
+			// teardown, which may run on another goroutine.
+			return sub.Unsubscribe
 		})
 	}
 }
